@@ -463,7 +463,7 @@ def solve_all(vcs, tier="quick", jobs=None, scratch=None):
     """Discharge VCs in a process pool.  Fills vc.result.  Two passes: (1) goal-only and the full problem with short
     budgets (most obligations end here; only two SMT texts are printed per VC), (2) premise-selection stages, other
     seeds, cvc5 and the z3 CLI for what is left."""
-    budgets = {"quick": dict(z3=10, cvc5=30, z3cli=20), "thorough": dict(z3=60, cvc5=120, z3cli=60)}[tier]
+    budgets = {"quick": dict(z3=10, cvc5=30, z3cli=20), "thorough": dict(z3=90, cvc5=300, z3cli=90)}[tier]
     if scratch:
         os.makedirs(scratch, exist_ok=True)
         budgets["tmpdir"] = scratch
